@@ -24,7 +24,7 @@ def run(tier, seed):
     items = [(A.request_address('C10', 'x', False),), (A.request_address('C10', 'x', True),),
              (A.request_address('C10', 'y', False),), (A.request_address('C10', 'y', True),),
              (A.set_address_var('C10'),), (A.system_set_address('C10'),), (A.set_xy_name('C10'),),
-             (A.link_external_model('C10'),), (A.link_external_group('C10'), None, A.replay_link_external_group), (A.set_arrays_inplace('C10'),), (A.extparam_link_model('C10'),), (A.extservice_link('C10'),),
+             (A.link_external_model('C10'),), (A.link_external_group('C10'), None, A.replay_link_external_group), (A.set_arrays_inplace('C10'),), (A.extparam_link_model('C10'),), (A.extparam_link_group('C10'), None, A.replay_extparam_group), (A.extservice_link('C10'),),
              (A.model_get('C10'),)]
     run_contracts(pack, items)
     A.bijection_lemmas(pack, 'C10')
@@ -47,4 +47,11 @@ def run(tier, seed):
                              'kind': 'bounded (exhaustive small group: all orders, repeats, None)', 'counted_as_proved': False})
         for w in bad3[:1]:
             pack.violation(lname, {'bounded': True, 'inputs': w, 'native_cmd': 'contracts/bounded_group_lookup.py'})
+    gname = 'C10/andes/core/param.py:ExtParam.link_external/bounded:borrowed-parameter-of-an-interleaved-two-model-group-follows-the-index-field'
+    r = native_guard(pack, gname, A.replay_extparam_group)
+    if r is not None:
+        pack.bounded.append({'function': 'System.setup with SynGen served by GENROU and GENCLS, TGOV1.syn in three orders (end to end)', 'cases': r.get('tried', 0),
+                             'kind': 'bounded native: ieee14.raw plus added machines and governors', 'counted_as_proved': False})
+        if r.get('confirmed'):
+            pack.violation(gname, {'bounded': True, 'inputs': r.get('inputs'), 'observed': r.get('observed'), 'native_cmd': r.get('native_cmd')})
     return pack.finish()
